@@ -82,18 +82,23 @@ ValSet == {st.vals[i].p : i \in DOMAIN st.vals}
 AbsentChoices == IF "Absent" \in Menu /\ cnt.absent < MaxAbsent THEN {{}, {"v1"}} \cup (IF "Absent2" \in Menu THEN {{"v1", "v3"}} ELSE {}) ELSE {{}}
 EvidenceChoices == IF "Evidence" \in Menu /\ cnt.evidence < MaxEvidence
                    THEN {<<>>, <<"v4">>, <<"v4", "v4">>, <<"c5">>} \cup (IF Real THEN {} ELSE {<<"v4", "v1">>, <<"nobody">>}) ELSE {<<>>}
+\* a block begins -- unless the validators present voted, with more than two thirds of their power, to halt at this height:
+\* then the node stops (the harness records a step of kind "Halt" instead of the BeginBlock)
 Begin ==
    /\ phase = "idle" /\ cnt.blocks < MaxBlocks
    /\ \E ab \in AbsentChoices, evd \in EvidenceChoices :
         LET h == st.h + 1
             absent == ab \cap ValSet
             present == ValSet \ absent
-        IN /\ st' = BeginS(st, h, absent, evd, WorldCfg)
-           /\ ev' = Ev("BeginBlock", h) @@ [begin |-> [time |-> 0, hour |-> 0, absent |-> SetToSeq(absent), evidence |-> evd, present |-> SetToSeq(present)]]
+            halted == HaltedAt(st, h, present)
+            beg == [time |-> 0, hour |-> 0, absent |-> SetToSeq(absent), evidence |-> evd, present |-> SetToSeq(present)]
+        IN /\ st' = IF halted THEN st ELSE BeginS(st, h, absent, evd, WorldCfg)
+           /\ ev' = Ev(IF halted THEN "Halt" ELSE "BeginBlock", h) @@ [begin |-> beg]
            /\ hist' = [hist EXCEPT !.present = present]
            /\ scn' = Append(scn, [op |-> "begin", absent |-> SetToSeq(absent), evidence |-> evd])
-           /\ cnt' = [cnt EXCEPT !.inBlock = 0, !.evidence = IF evd = <<>> THEN @ ELSE @ + 1, !.absent = IF absent = {} THEN @ ELSE @ + 1]
-   /\ phase' = "begun"
+           /\ cnt' = [cnt EXCEPT !.inBlock = 0, !.evidence = IF evd = <<>> THEN @ ELSE @ + 1, !.absent = IF absent = {} THEN @ ELSE @ + 1,
+                                 !.blocks = IF halted THEN MaxBlocks ELSE @]
+           /\ phase' = IF halted THEN "idle" ELSE "begun"
    /\ UNCHANGED disk
 
 \* what the node tells the consensus engine after an update of the validator set
@@ -150,7 +155,16 @@ SwitchTxs == {MkTx("SetCandidateOff", "a6", [pub |-> "v2"]), MkTx("SetCandidateO
               MkTx("SetCandidateOn", "a5", [pub |-> "c5"]), MkTx("SetCandidateOn", "o1", [pub |-> "v1"])}
              \cup (IF Real THEN {} ELSE {MkTx("SetCandidateOff", "o2", [pub |-> "v2"]), MkTx("SetCandidateOn", "o1", [pub |-> "nobody"])})
 PunishTxs == {Unb("o4", "v4", 100), MkTx("SetCandidateOn", "o1", [pub |-> "v1"]), Dlg("a2", "v1", 100), Mov("o4", "v4", "v1", 50)}
-TxMenu == (IF "Delegate" \in Menu THEN DelegateTxs ELSE {})
+\* governance: votes of the four validators' owners for a halt / a version at the third block (stakes 1000..4000: v2+v4 of v2,v3,v4 is exactly 2/3)
+VoteHeight == H0 + 3
+Owner(i) == "o" \o ToString(i)
+Key(i) == "v" \o ToString(i)
+HaltTxs == {MkTx("SetHaltBlock", Owner(i), [pub |-> Key(i), height |-> VoteHeight]) : i \in 1..4}
+           \cup {MkTx("SetHaltBlock", "o1", [pub |-> "v1", height |-> H0]), MkTx("SetHaltBlock", "a1", [pub |-> "v2", height |-> VoteHeight])}
+UpdateTxs == {MkTx("VoteUpdate", Owner(i), [pub |-> Key(i), height |-> VoteHeight, version |-> ver]) : i \in 2..4, ver \in {"v330"}}
+             \cup {MkTx("VoteUpdate", "o3", [pub |-> "v3", height |-> VoteHeight, version |-> "v320"]), MkTx("VoteUpdate", "o1", [pub |-> "v1", height |-> VoteHeight, version |-> "v320"])}
+TxMenu == (IF "Halt" \in Menu THEN HaltTxs ELSE {}) \cup (IF "Update" \in Menu THEN UpdateTxs ELSE {})
+     \cup (IF "Delegate" \in Menu THEN DelegateTxs ELSE {})
      \cup (IF "Unbond" \in Menu THEN UnbondTxs ELSE {})
      \cup (IF "Move" \in Menu THEN MoveTxs ELSE {})
      \cup (IF "LockStake" \in Menu THEN LockTxs ELSE {})
@@ -184,6 +198,7 @@ P_C17 == [][C17_Set]_mvars
 P_C18 == [][C18_Step]_mvars
 P_C19 == [][C19_Step /\ C19_PayoutStep]_mvars
 P_C27 == [][C27_Step]_mvars
+P_C20 == [][C20_Step]_mvars
 TypeOK == /\ phase \in {"idle", "begun", "ended"}
           /\ C02_State(st)
 \* every exit from staking that the model produces is on schedule: a frozen fund never outlives its due block
@@ -237,6 +252,18 @@ ReachStep ==
    /\ Mark("EvidenceWithUnbondingFunds", IsKind("BeginBlock") /\ \E f \in Range(st.frozen) : f.key \in EvSet /\ f.due > H)
    /\ Mark("EvidenceWithFundsDueNow", IsKind("BeginBlock") /\ \E f \in Range(st.frozen) : f.key \in EvSet /\ f.due = H)
    /\ Mark("EvidenceAgainstOffline", IsKind("BeginBlock") /\ ~NoEvidence /\ EvSet = {})
+   /\ Mark("VoteOk", OkTx("SetHaltBlock") \/ OkTx("VoteUpdate"))
+   /\ Mark("VoteExpired", Rej(VoteExpired))
+   /\ Mark("VoteTwice", Rej(VoteAlreadyExists) \/ Rej(HaltAlreadyExists))
+   /\ Mark("VoteByStranger", Delivered /\ Tx.type \in {"SetHaltBlock", "VoteUpdate"} /\ Code = IsNotOwnerOfCandidate)
+   /\ Mark("Halted", IsKind("Halt"))
+   /\ Mark("HaltVotesNotEnough", IsKind("BeginBlock") /\ VotesAt(st.haltVotes, H) # <<>>)
+   /\ Mark("HaltExactlyTwoThirds", IsKind("BeginBlock") /\ \E v \in Range(VotesAt(st.haltVotes, H)) :
+                Nat2A(2) ** TotalPowerOf(st, Range(ev'.begin.present)) = Nat2A(3) ** VotedPower(st, Range(ev'.begin.present), v.votes))
+   /\ Mark("UpdateApplied", IsKind("EndBlock") /\ Len(st'.versions) > Len(st.versions))
+   /\ Mark("UpdateVotesNotEnough", IsKind("EndBlock") /\ VotesAt(st.updVotes, H) # <<>> /\ st'.versions = st.versions)
+   /\ Mark("UpdateCompeting", IsKind("EndBlock") /\ Len(VotesAt(st.updVotes, H)) > 1 /\ Len(st'.versions) > Len(st.versions))
+   /\ Mark("VotesForgotten", IsKind("Commit") /\ (st'.updVotes # st.updVotes \/ st'.haltVotes # st.haltVotes))
    /\ Mark("EvidenceAndAbsenceTogether", IsKind("BeginBlock") /\ \E p \in Range(ev'.begin.evidence) : Punishable(p) /\ TooAbsent(p))
 
 Dump == (phase = "idle" /\ cnt.blocks = MaxBlocks) => PrintT("SCN " \o ToJson(scn))
